@@ -57,7 +57,7 @@ def run_item(item, tier):
 
 def coverage(total, tier):
     return std_coverage(total, {
-        'T': f'{len(tt.t_atoms())} try-body atoms (17 base atoms, each also under preempt / if / three loop shapes); all bodies of '
+        'T': f'{len(tt.t_atoms())} try-body atoms (19 base atoms, each also under preempt / if / three loop shapes); all bodies of '
              'length<=2' + (' plus length 3 over 19 atoms' if tier == 'thorough' else ' with at least one non-nesting atom') + ' x {undo, stop}; 3 further handler bodies '
              '(return, nested try, you-call) on ' + ('single atoms and all base pairs' if tier == 'thorough' else 'single atoms') + '; x in 0,1,2',
         'H': '20 try blocks (10 bodies x undo/stop): all ordered pairs in three shapes (straight line, loop run 3 times, you-function '
